@@ -2,10 +2,10 @@ package main
 
 import (
 	"fmt"
-	"strings"
 	"go/token"
 	"go/types"
 	"math/big"
+	"strings"
 
 	"golang.org/x/tools/go/ssa"
 )
@@ -202,6 +202,7 @@ func (x *Exec) freshRef(st *State, prefix string) *Term {
 	x.allocOff++
 	x.freshNames[sanitize(prefix)] = true
 	r := x.ctx.Fresh(prefix, RefSort)
+	r.Distinct = 2
 	x.freshRefs[r.Name] = true
 	// allocation identity: fresh objects differ from null, from each other, and from everything
 	// that existed at function entry / was produced by an earlier havoc (allocId <= 0 there).
